@@ -697,10 +697,12 @@ fn apply_one(mut st: ApplyState, rr: &URr, quirks: &Quirks, out: &mut Vec<ApplyS
                     replace(st, "soa-equal-serial-replaced", out);
                 }
                 SerialOrd::Undefined => {
-                    let mut a = st.clone();
-                    a.branches.push("soa-rfc1982-undefined-ignored");
-                    out.push(a);
-                    replace(st, "soa-rfc1982-undefined-replaced", out);
+                    // exactly 2^31 apart: RFC 1982 leaves the comparison itself open, but a
+                    // replacement cannot satisfy the rest of the property (the serial would not
+                    // have advanced over the one the zone had: after the server's own increment
+                    // it is RFC 1982-*smaller*), so only "ignored" is an acceptable outcome
+                    st.branches.push("soa-rfc1982-undefined-ignored");
+                    out.push(st);
                 }
             }
             return;
